@@ -151,12 +151,25 @@ theorem ser_eq (size n : Nat) (a : ARec) (ok : a.OK n) (hn : n ≤ 256 ^ size) :
   have : ∀ v ∈ a.refs, v < 256 ^ size := fun v hv => Nat.lt_of_lt_of_le (ok.refs_lt v hv) hn
   simp [Rec.ser, ARec.toRec, mapM_toBytesBE size a.refs this, ARec.bytes]
 
+theorem flatten_natToBE_length (size : Nat) : ∀ (vs : List Nat), ((vs.map (natToBE size)).flatten).length = vs.length * size
+  | [] => by simp
+  | v :: vs => by
+    simp only [List.map_cons, List.flatten_cons, List.length_append, natToBE_length, List.length_cons,
+      flatten_natToBE_length size vs, Nat.add_mul, Nat.one_mul]
+    omega
+
+theorem bytes_length (size n : Nat) (a : ARec) (ok : a.OK n) :
+    (a.bytes size).length = 2 + (a.d2 / 2 + a.d2 % 2) + (a.d1 % 8) * size := by
+  simp only [ARec.bytes, List.length_cons, List.length_append, flatten_natToBE_length, ok.dataLen, ok.nrefs]
+  omega
+
 theorem readCell_bytes (size n : Nat) (a : ARec) (ok : a.OK n) (hn : n ≤ 256 ^ size) (rest : Bytes) :
-    readCell size (a.bytes size ++ rest) = some (a.toSRec, rest) := by
+    readCell size (a.bytes size ++ rest) = some (a.toSRec, (a.bytes size).length, rest) := by
   have hrefs : ∀ v ∈ a.refs, v < 256 ^ size := fun v hv => Nat.lt_of_lt_of_le (ok.refs_lt v hv) hn
   have h1 : ¬ (a.d1 % 8 > 4) := by have := ok.nrefs; have := ok.refs_le; omega
   have hu := uintsBE_flatten size a.refs rest hrefs
   rw [← ok.nrefs] at hu
+  rw [bytes_length size n a ok]
   unfold readCell ARec.bytes
   simp only [List.cons_append, uintBE_one, Option.bind_eq_bind, Option.bind_some, h1, if_false,
     ok.noHashes, List.append_assoc, takeN_append _ _ _ ok.dataLen]
@@ -436,7 +449,7 @@ def Forward (as : List ARec) : Prop := ∀ (i : Nat) (a : ARec), as[i]? = some a
 
 theorem refsForward_of (as : List ARec) (ok : ∀ a ∈ as, a.OK as.length) (fw : Forward as) :
     refsForward (as.map ARec.toSRec) = true := by
-  unfold refsForward
+  unfold refsForward refsForwardN
   rw [List.all_eq_true]
   intro ⟨r, i⟩ hri
   rw [List.mem_zipIdx_iff_getElem?] at hri
